@@ -341,13 +341,18 @@ func (e *Encoder) bin(b []byte) {
 }
 
 func (e *Encoder) typ(t string) {
+	// every earlier occurrence of the same type string is a legal back-reference target (a literal
+	// type string always takes a new slot, also when it repeats an earlier one)
+	var idx []int
 	for i, x := range e.types {
 		if x == t {
-			if e.Ch.Pick(2, "type-backref") == 1 {
-				e.int32(int32(i), "typeref")
-				return
-			}
-			break
+			idx = append(idx, i)
+		}
+	}
+	if len(idx) > 0 {
+		if c := e.Ch.Pick(1+len(idx), "type-backref"); c > 0 {
+			e.int32(int32(idx[len(idx)-c]), "typeref") // alternative 1 = the most recent occurrence
+			return
 		}
 	}
 	// a literal type string always extends the type table
